@@ -154,6 +154,9 @@ func (i *IntransitiveActivity) Clean() {
 		o.Clean()
 		return nil
 	})
+	// NOTE: an intransitive activity has no object, but its actor and target can be embedded just like an Activity's
+	CleanRecipients(i.Actor)
+	CleanRecipients(i.Target)
 }
 
 // GetType returns the ActivityVocabulary type of the current Intransitive Activity
